@@ -460,6 +460,15 @@ func main() {
 			completed += c.Conns[n].Done
 		}
 		settled := evb.waitCount(10*time.Second, "clean", completed)
+		// ... and every connection of the trial has been accepted by the proxy (a connection still in the kernel's accept
+		// queue when the listening socket closes is reset by the kernel: that is not a state of the model)
+		for i := 0; i < 1000 && connsOpen(li.name) < int64(len(names)); i++ {
+			time.Sleep(5 * time.Millisecond)
+		}
+		settled = settled && connsOpen(li.name) >= int64(len(names))
+		if !settled {
+			fail("settle", fmt.Errorf("streams of completed requests or connection count did not settle within 10 s"))
+		}
 		// ---- the signal
 		tr.Emit(vh.Ev{"ev": "signal", "settled": settled})
 		t0 := time.Now()
